@@ -411,6 +411,246 @@ void subD(int a, float x) { I3 = a; F3 = x; subD(a + 1, x * 2.0); }
 void subE(int a) { subE(I0 * 2); subE(a ? 1 : 2); }
 ''')
 
+# =====================================================================================
+# feature-coverage items: constructs the harvested tests do not combine
+
+# --- intrinsic table competition: two opcodes for the same intrinsic (which one the compiler picks)
+add('competition/anm-duplicate-intrinsics', 'ANM_12', mapfiles=['''!anmmap
+!ins_signatures
+900 SS
+901 SSS
+902 So
+903 Sot
+904 ot
+!ins_intrinsics
+900 AssignOp(op="="; type="int")
+901 BinOp(op="+"; type="int")
+902 CountJmp(op=">")
+903 CountJmp()
+904 Jmp()
+'''], main_body='''
+    I0 = 3;
+    I1 = I0 + 4;
+    times(I2 = 5) { nop(); }
+  again:
+    I1 = I1 + 1;
+    if (I1 < 10) goto again;
+    loop { I0 = I0 + 1; if (I0 == 20) break; }
+''')
+add('competition/ecl07-duplicate-intrinsics', 'ECL_07', mapfiles=['''!eclmap
+!ins_signatures
+999 Sot
+998 SS
+!ins_intrinsics
+999 CountJmp()
+998 AssignOp(op="="; type="int")
+'''], main_body='''
+    times(I0 = 4) { I1 = 7; }
+    I2 = 9;
+''')
+# --- PCB-style call signature inference with conflicting call sites in different subs
+add('competition/pcb-conflicting-callsites', 'ECL_07', items='''
+void targetA() {}
+void targetB() {}
+void targetC() {}
+void wideA()   { ARG_A = 3; ARG_B = 4; call(targetA); }
+void narrowA() { ARG_A = 3; call(targetA); }
+void floatB()  { ARG_R = 1.5; call(targetB); }
+void intB()    { ARG_A = 2; call(targetB); }
+void mixC1()   { ARG_A = 1; ARG_R = 2.0; ARG_B = 3; call(targetC); }
+void mixC2()   { ARG_R = 2.0; call(targetC); }
+void mixC3()   { call(targetC); }
+''')
+# --- difficulty: >= 3 variants with time labels in between, in subs and (TH08) in timelines
+add('feature/ecl06-diff-variants-with-times', 'ECL_06', main_body='''
+    {"E"}: I0 = 1;
+    {"N"}: I0 = 2;
++10:
+    {"H"}: I0 = 3;
+    {"L"}: I0 = 4;
+    {"EN"}: F0 = 1.0;
+    {"HL"}: F0 = 2.0;
++5:
+    I1 = 1:2:3:4;
+    F1 = 1.0:1.0:2.0:2.0;
+    {"E"}: I2 = 5;
++7:
+    {"N"}: I2 = 6;
+    {"H"}: I2 = 7;
+    {"L"}: I2 = 8;
+''')
+add('feature/ecl08-timeline-difficulty', 'ECL_08', mapfiles=['''!eclmap
+!timeline_ins_signatures
+10 S
+11 S
+'''], full='''
+#pragma mapfile "map/any.eclm"
+script timeline0 {
+    ins_10(100);
++10:
+    {"E"}: ins_10(1);
+    {"HL"}: ins_11(2);
++20:
+    {"N"}: ins_10(3);
+    ins_11(4);
+}
+script timeline1 {
+    {"L"}: ins_10(7);
+}
+void sub0() {
+    {"E"}: I0 = 1;
+    {"HL"}: I0 = 2;
+}
+void sub1() {}
+''')
+# --- TH10 ECL header lists with non-ASCII names of every length class mod 4
+add('feature/ecl10-nonascii-lists', 'ECL_10', full='''
+meta {
+    ecli: ["default.ecl", "ボス.ecl", "あ.ecl"],
+    anim: ["enemy.anm", "ボス1.anm", "漢字漢.anm", "x.anm"],
+}
+void main() {
+}
+void other() {
+}
+''')
+# --- mission MSG with every player value and text in every line (cipher key depends on stage, scene, player, line)
+add('feature/mission-th125-players', 'MSG_09', game='th125', compile_args=['--mission'], tags=['--mission'], full='''
+entry {
+    stage: 3, scene: 5, player: 1, unknown_1: 9, unknown_2: 8, point_1: 1000, point_2: 2000,
+    furigana: [[1, 2], [3, 4], [5, 6]],
+    text: ["player one line one", "two", "three", "four", "five", "six"],
+}
+entry {
+    stage: 255, scene: 254, player: 2, unknown_1: 0, unknown_2: 1, point_1: 7, point_2: 8,
+    furigana: [[0, 0], [0, 0], [9, 9]],
+    text: ["にほんご", "kana カナ", "", "x", "yy", "zzz"],
+}
+''')
+add('feature/mission-th095-japanese', 'MSG_09', game='th095', compile_args=['--mission'], tags=['--mission'], full='''
+entry { stage: 10, scene: 9, face: 3, point: 123456, text: ["日本語のテキスト", "ｶﾀｶﾅ half", "mixed 漢字 text"] }
+entry { stage: 0, scene: 0, face: 0, point: 0, text: ["", "", ""] }
+''')
+# --- MSG: strings with multi-byte text, several string instructions in a row (furigana quirk games)
+for fmt in ('MSG_06', 'MSG_09', 'MSG_12', 'MSG_17'):
+    add('feature/%s-strings' % fmt.lower(), fmt, full='''
+#pragma mapfile "map/any.msgm"
+
+meta {
+    table: {
+        0: {script: "main"},
+        1: {script: "second"},
+        default: {script: "main"},
+    }
+}
+
+script main {
+    textSet(0, 0, "hello world");
++10:
+    textSet(0, 1, "日本語のテキスト");
+    textSet(1, 0, "");
++20:
+    textSet(1, 1, "a");
+    textSet(0, 0, "ab");
+    textSet(0, 0, "abc");
+    textSet(0, 0, "abcd");
+}
+
+script second {
+    textSet(0, 0, "カタカナ ｶﾀｶﾅ");
+}
+''' if fmt in ('MSG_06',) else '''
+#pragma mapfile "map/any.msgm"
+
+meta {
+    table: {
+        0: {script: "main", flags: 256},
+        1: {script: "second", flags: 0},
+        default: {script: "main", flags: 256},
+    }
+}
+
+script main {
+    ins_0();
+}
+
+script second {
+    ins_0();
+}
+''')
+# --- STD: objects with several quads, instances in non-trivial order, a script with jumps and interrupts
+add('feature/std08-objects-script', 'STD_08', full='''
+#pragma mapfile "map/any.stdm"
+
+meta {
+    unknown: 0,
+    stage_name: "dm",
+    bgm: [
+        {path: "bgm/th08_08.mid", name: "dm"},
+        {path: "bgm/th08_09.mid", name: "dm"},
+        {path: " ", name: " "},
+        {path: " ", name: " "},
+    ],
+    objects: {
+        blurb: {
+            layer: 0,
+            pos: [-320.0, -128.0, -12.0],
+            size: [768.0, 384.0, 0.0],
+            quads: [
+                rect {anm_script: 0, pos: [-64.0, 0.0, -12.0], size: [512.0, 256.0]},
+                rect {anm_script: 3, pos: [1.0, 2.0, 3.0], size: [4.0, 5.0]},
+                strip {anm_script: 1, start: [218.0, 192.0, 0.0], end: [268.0, 192.0, -280.0], width: 5.0},
+            ],
+        },
+        blorb: {
+            layer: 1,
+            pos: [-81.602196, -140.91132, -425.6022],
+            size: [531.2044, 505.268, 571.2044],
+            quads: [rect {anm_script: 2, pos: [64.0, 224.0, -64.0], size: [112.0, 96.0]}],
+        },
+        empty: { layer: 2, pos: [0.0, 0.0, 0.0], size: [1.0, 1.0, 1.0], quads: [] },
+    },
+    instances: [
+        blorb {pos: [320.0, 4296.0, 0.0]},
+        blurb {pos: [-192.0, 6600.0, 0.0]},
+        empty {pos: [0.0, 0.0, 0.0]},
+        blorb {pos: [1.0, 2.0, 3.0]},
+    ],
+}
+
+script main {
+    posKeyframe(0.0, 0.0, 0.0);
++60:
+  again:
+    posKeyframe(1.0, 2.0, 3.0);
+    interrupt[1]:
++30:
+    posKeyframe(4.0, 5.0, 6.0);
+    goto again @ 60;
+}
+''')
+# --- ANM: several entries and scripts, interrupts, negative and decreasing times, nested blocks
+add('feature/anm12-control-flow', 'ANM_12', main_body='''
+    I0 = 0;
+-5:
+    nop();
+0:
+    while (I0 < 10) {
+        I0 += 1;
+        if (I0 == 5) { F0 = 1.5; } else if (I0 == 7) { F0 = 2.5; } else { F0 = 0.0; }
+        times(I1 = 3) { nop(); { int t = I0 * 2; I2 = t; } }
+    }
+    interrupt[2]:
++10:
+    do { I0 -= 1; } while (I0 > 0);
+    interrupt[3]:
+    loop { I3 = I3 + 1; if (I3 > 4) break; }
+10:
+    nop();
+5:
+    nop();
+''')
+
 # --- mission MSG (no source_test coverage): th095 and th125
 add('mission/th095', 'MSG_09', game='th095', compile_args=['--mission'], tags=['--mission'], full='''
 entry {
